@@ -331,10 +331,23 @@ type parseOutcome struct {
 	ticks  int64
 }
 
-func monitoredParse(data []byte) parseOutcome {
+func monitoredParse(data0 []byte) parseOutcome {
 	var o parseOutcome
+	// The input ends at an inaccessible page, as a mapped counter file does
+	// (ReadMapped; file sizes are multiples of the page size): a read beyond
+	// the input is a fault, not a silent read of neighbouring memory.
+	data, free := verifrt.GuardedCopy(data0)
+	defer free()
 	verifrt.SetTickBudget(parseTickBudget(len(data)))
-	o.pv, o.stack = guarded(func() { o.f, o.err = Parse("verif.v1.count", data) })
+	o.pv, o.stack = guarded(func() {
+		o.f, o.err = Parse("verif.v1.count", data)
+		if o.f != nil {
+			// (the result must not refer to the input once it is gone)
+			for k := range o.f.Count {
+				_ = len(k)
+			}
+		}
+	})
 	o.ticked = verifrt.TickExceeded()
 	o.ticks = verifrt.Ticks()
 	verifrt.SetTickBudget(0)
